@@ -17,6 +17,8 @@ structure St where
   c : Nat
   kk : Nat
   style : Nat := 0
+  /-- index of the first accumulated term (non-zero only for the triangular kernels) -/
+  k0 : Nat := 0
 deriving Repr, BEq, DecidableEq
 
 structure Seg where
